@@ -61,6 +61,10 @@ def _case(draw, tier):
         atoms = gen.ATOMS[:n]
         ranks = [draw(st.integers(0, 4)) for _ in range(1 << n)]
         base = []
+        if draw(st.integers(0, 2)) == 0:
+            # rank map over only SOME worlds (what conditionalisation / marginalisation produce)
+            keep = draw(st.lists(st.integers(0, (1 << n) - 1), min_size=1, max_size=1 << n, unique=True))
+            ranks = [r if w in keep else None for w, r in enumerate(ranks)]
     else:
         atoms, conds = draw(st.one_of(gen.strong_base(1, 4, 4, consts=False), gen.layered_base(2, 3, 4)))
         n = len(atoms)
@@ -77,6 +81,17 @@ def _case(draw, tier):
 
 def strategy(tier):
     return _case(tier)
+
+
+def same_json(a, b):
+    """type-strict deep equality (1, 1.0 and True are different JSON values; dict order is not)"""
+    if type(a) is not type(b):
+        return False
+    if isinstance(a, dict):
+        return a.keys() == b.keys() and all(same_json(a[k], b[k]) for k in a)
+    if isinstance(a, list):
+        return len(a) == len(b) and all(same_json(x, y) for x, y in zip(a, b))
+    return a == b
 
 
 class FailingFile:
@@ -143,7 +158,8 @@ def run_case(case, ctx):
     def build():
         meta = json.loads(json.dumps(case["meta"]))
         if kind == "custom":
-            return PreOCF.init_custom({world_str(w, n): case["ranks"][w] for w in range(1 << n)}, signature=list(atoms), metadata=meta)
+            return PreOCF.init_custom({world_str(w, n): case["ranks"][w] for w in range(1 << n) if case["ranks"][w] is not None},
+                                      signature=list(atoms), metadata=meta)
         bb = bridge.mk_bb(atoms, base)
         if kind == "z":
             return PreOCF.init_system_z(bb, metadata=meta, extended=case.get("extended", False))
@@ -159,8 +175,13 @@ def run_case(case, ctx):
     ctx.stratum(f"kind:{kind}")
     info = {"kind": kind, "atoms": atoms, "base": [f"{k}:{fm.cond_text(B, A)}" for k, B, A in base], "pre": case["pre"]}
     worlds = [world_str(w, n) for w in range(1 << n)]
+    if kind == "custom":
+        worlds = [w for w in worlds if w in full]
+        if len(worlds) < (1 << n):
+            ctx.stratum("custom:partial-rank-map")
     for w in case["pre"]:
-        ocf.rank_world(world_str(w % (1 << n), n))
+        if world_str(w % (1 << n), n) in worlds:
+            ocf.rank_world(world_str(w % (1 << n), n))
     partial = kind != "custom" and 0 < len(set(case["pre"])) < (1 << n)
     qconds = [(fm.from_json(B), fm.from_json(A)) for B, A in case["queries"]]
     verdicts = [bool(twin.conditional_acceptance(bridge.mk_cond(B, A))) for B, A in qconds]
@@ -280,7 +301,7 @@ def run_case(case, ctx):
                     o6 = PreOCF.init_custom({"0": 0}, signature=["a"])
                     o6.load_metadata(mp)
                     for k, v in case["meta"].items():
-                        if k not in o6.metadata or o6.metadata[k] != v or json.dumps(o6.metadata[k]) != json.dumps(v):
+                        if k not in o6.metadata or not same_json(o6.metadata[k], v):
                             out.append(obs("metadata|roundtrip-differs", dict(info, file=name, key=k, saved=repr(v), loaded=repr(o6.metadata.get(k)))))
                             break
             except BaseException as e:  # noqa: BLE001
@@ -379,4 +400,4 @@ def shrink(case):
 
 
 def required_strata(tier):
-    return ["kind:custom", "kind:z", "kind:c", "partial-state", "fresh-interpreter", "failed-save"]
+    return ["kind:custom", "custom:partial-rank-map", "kind:z", "kind:c", "partial-state", "fresh-interpreter", "failed-save"]
